@@ -400,7 +400,7 @@ class Out:
             body = thunk()
             self.define(gname, typ, body, params)
             self.items.append(gname)
-        except (TieError, SyntaxError, FileNotFoundError, KeyError, IndexError, AttributeError, TypeError, ValueError) as ex:
+        except Exception as ex:  # fail closed: anything unexpected in the source makes this item fall back
             self.fallback.append({"item": gname, "why": f"{type(ex).__name__}: {ex}"})
             snap = snapshot_text(self.name, gname)
             if snap is None:
